@@ -25,11 +25,17 @@ MANIFEST = {
             "of libp2p-identity's PeerId (the reference, = multiaddr::PeerId) and bs58's encode/decode loops: derivation rule, "
             "ed25519 id form, print/parse and (partial, with witness) parse/print canonicity, base58 and text/serde round trips, "
             "acceptance equal to the reference, the infallible conversion into multiaddr::PeerId never panics, total parsers. "
-            "Every run ties the models to the code three ways (model / litep2p / libp2p-identity) on structured inputs.",
+            "Every run ties the models to the code three ways (model / litep2p / libp2p-identity) on structured inputs. "
+            "Coverage round: the ed25519 key material of src/crypto/ed25519.rs and crypto/mod.rs — Keypair/SecretKey/PublicKey "
+            "byte forms (length rules, zeroing of the caller's buffer on success only, consistency of the two keypair halves), "
+            "verify on malformed signatures, protobuf key blobs through both PublicKey and RemotePublicKey, and the remaining "
+            "PeerId conversions (TryFrom<Vec<u8>>, TryFrom<Multihash>, Into<Multihash>) — with the curve arithmetic as a "
+            "parameter (key_bytes_roundtrip, keypair_parse_sound, key_length_rules, verify_total), compared three ways.",
     "note": "Trusted: Lean kernel; axioms propext/Classical.choice/Quot.sound; the hand-written models and their tie (sampled "
             "differential runs through adapter src/verif/c18.rs and harness/src/local/c18ref.rs); SHA-256 is a parameter of the "
             "model (32-byte output assumed), computed by Python hashlib in the run; ed25519 point validity is taken from the "
-            "implementation; multiaddr text/binary framing is compared, not modelled. parse_print is partial: unsigned-varint "
+            "implementation; for the key operations the curve facts (public key derived from a seed, point validity, signature "
+            "validity) come from libp2p-identity/ed25519-dalek on the reference side and test vectors computed once with it; multiaddr text/binary framing is compared, not modelled. parse_print is partial: unsigned-varint "
             "drops the high bits of a 10-byte varint, so non-canonical encodings are accepted (known finding c18-varint-trunc).",
     "technique": "Lean 4 proof (structural induction over the decode loops, positional-numeral uniqueness for base58) + "
                  "three-way model/implementation/reference correspondence check",
@@ -39,7 +45,9 @@ RULE = ("seeded inputs: multihash byte strings of codes 0x00/0x12/0x11/0x13/0x16
         "(boundaries 32/42/43/64/65), non-minimal, truncating and overflowing varints, trailing bytes, truncations, random "
         "bytes; key blobs of 0..100 bytes and ed25519 keys; base58 strings (valid ids, leading '1's, invalid and non-ASCII "
         "characters, long strings); each through from_bytes, from_str, multiaddr, serde on litep2p, libp2p-identity and the "
-        "model; a case is non-trivial if it has accepted and rejected inputs; distinct = distinct transcripts by SHA-256")
+        "model; keypair buffers (valid, halves of different keys, flipped bits, invalid points, lengths 0..72), secret/public "
+        "keys of every nearby length, protobuf key blobs (other types, wrong length prefixes, swapped/missing/repeated/unknown "
+        "fields, truncations), signatures (valid, flipped, wrong key/message, lengths 0..128, all-zero/all-ff) and conv; a case is non-trivial if it has accepted and rejected inputs; distinct = distinct transcripts by SHA-256")
 TRUSTED_BASE = ["Lean 4.33 kernel", "axioms: propext, Classical.choice, Quot.sound only",
                 "hand-written models Model/Id/*.lean tied to peer_id.rs, unsigned-varint, multihash, bs58 and libp2p-identity "
                 "by this three-way correspondence run",
@@ -47,8 +55,12 @@ TRUSTED_BASE = ["Lean 4.33 kernel", "axioms: propext, Classical.choice, Quot.sou
                 "SHA-256 is a parameter of the model; values come from Python hashlib (h=…) and are compared with the real code",
                 "ed25519 point validity (valid=…) and applicability of the reference to a key blob (ref=…) are taken from the "
                 "implementation's answers (checker mode)",
-                "multiaddr's text/binary component framing and serde data formats are exercised (round trips), not modelled"]
-ASSUMPTIONS = ["hash output is 32 bytes (SHA-256)", "usize is 64 bits", "strings handed to from_str are valid UTF-8 (Rust &str)"]
+                "multiaddr's text/binary component framing and serde data formats are exercised (round trips), not modelled",
+                "ed25519-dalek's curve arithmetic is the parameter `Curve` of Model/Id/Keys.lean; its values come from the "
+                "reference side (derive=/valid=/sigok=/sig=) and the embedded test vectors KEYS/SIGS of checks/c18.py; "
+                "libp2p-identity's protobuf key decoding is compared only where both sides accept"]
+ASSUMPTIONS = ["hash output is 32 bytes (SHA-256)", "usize is 64 bits", "strings handed to from_str are valid UTF-8 (Rust &str)",
+               "a signature made by ed25519-dalek verifies under the matching key (edsign … v=1 is echoed, not derived)"]
 KEEP_PREFIX = 0
 
 ALPHA = "123456789ABCDEFGHJKLMNPQRSTUVWXYZabcdefghijkmnopqrstuvwxyz"
